@@ -232,6 +232,8 @@ func (gw *inclusiveGateway) Element() schema.FlowNodeInterface {
 }
 
 type flowTracker struct {
+	tracer     tracing.ITracer
+	subscribed chan tracing.ITrace
 	traces     <-chan tracing.ITrace
 	shutdownCh chan bool
 	flows      map[id.Id]schema.Id
@@ -245,8 +247,11 @@ func (tracker *flowTracker) activity() <-chan struct{} {
 }
 
 func newFlowTracker(tracer tracing.ITracer, element *schema.InclusiveGateway) *flowTracker {
+	subscribed := tracer.Subscribe()
 	tracker := flowTracker{
-		traces:     tracer.Subscribe(),
+		tracer:     tracer,
+		subscribed: subscribed,
+		traces:     subscribed,
 		shutdownCh: make(chan bool),
 		flows:      make(map[id.Id]schema.Id),
 		activityCh: make(chan struct{}, 1),
@@ -289,6 +294,9 @@ func (tracker *flowTracker) run() {
 			if locked {
 				tracker.lock.Unlock()
 			}
+			// stop receiving traces: a subscriber that no longer reads
+			// blocks the tracer (and every sender) once its buffer is full
+			tracker.tracer.Unsubscribe(tracker.subscribed)
 			return
 		default:
 			// Nothing else is coming in, unlock if locked
@@ -320,6 +328,7 @@ func (tracker *flowTracker) run() {
 			if locked {
 				tracker.lock.Unlock()
 			}
+			tracker.tracer.Unsubscribe(tracker.subscribed)
 			return
 		}
 
